@@ -222,8 +222,41 @@ def pair_identity_section(pid, res, count):
                 res["violations"].append(("foreign-archive-trusted", "the first run on a root pair trusted the record of ANOTHER pair (root names differing only in bytes a lossy comparison conflates)", rep2))
             if not (ok_a and ok_b):
                 res["violations"].append(("file-removed-under-foreign-archive", f"notes.txt existed on side A of a never-synced pair and is {'missing on A' if not ok_a else 'not created on B'} after the run", rep2))
+    # a root reached through a SYMLINK, and the link re-pointed at another directory between two runs: the pair is the pair of
+    # DIRECTORIES (canonical paths), not of spellings — the record made for the old target must not be trusted for the new one
+    for via_parent in (False, True):
+        with Sandbox(pid) as sb:
+            base = os.fsencode(sb.dir)
+            t1, t2, b_ = os.path.join(base, b"store1", b"A"), os.path.join(base, b"store2", b"A"), os.path.join(base, b"B")
+            for d_ in (t1, t2, b_):
+                os.makedirs(d_)
+            for r_ in (t1, b_):
+                open(os.path.join(r_, b"f"), "wb").write(b"both\n"); open(os.path.join(r_, b"g"), "wb").write(b"recorded on both sides\n")
+            open(os.path.join(t2, b"f"), "wb").write(b"both\n")
+            if via_parent:
+                link = os.path.join(base, b"cur"); os.symlink(b"store1", link); root_a = os.path.join(link, b"A")
+            else:
+                link = os.path.join(base, b"work"); os.symlink(os.path.join(b"store1", b"A"), link); root_a = link
+            env = sb.env
+            r1 = subprocess.run([os.fsencode(CLI_BIN), b"bisync", root_a, b_], env=env, cwd=sb.dir, stdout=subprocess.PIPE, stderr=subprocess.PIPE)
+            files = [f for f in sb.archive_files() if f.endswith(".json")]
+            want = blake3_hex([os.path.realpath(t1) + b"\0" + os.path.realpath(b_)])[0]
+            count("pair-identity/symlinked-root")
+            rep = {"root": root_a.decode(), "link_target": "store1", "archive_files": files, "expected_stem": want, "rc1": r1.returncode}
+            if files != [want + ".json"]:
+                ndis += 1
+                res.setdefault("pair_disagreements", []).append(rep)
+            os.remove(link)
+            os.symlink(b"store2" if via_parent else os.path.join(b"store2", b"A"), link)
+            r2 = subprocess.run([os.fsencode(CLI_BIN), b"bisync", root_a, b_], env=env, cwd=sb.dir, stdout=subprocess.PIPE, stderr=subprocess.PIPE)
+            rep2 = dict(rep, rc2=r2.returncode, stderr2=r2.stderr.decode("utf-8", "replace")[-300:],
+                        history=[f"{root_a.decode()} -> store1/A; A and B both hold f, g; bisync", "the link is re-pointed at store2/A, which holds f only; bisync with the same arguments"])
+            if b"SAFE no-base mode" not in r2.stderr:
+                res["violations"].append(("foreign-archive-trusted", "after the root symlink was re-pointed at another directory the run trusted the record made for the OLD directory pair", rep2))
+            if not (os.path.exists(os.path.join(b_, b"g")) and os.path.exists(os.path.join(t2, b"g"))):
+                res["violations"].append(("file-removed-under-foreign-archive", "B/g is listed in the record of the old pair; with the new directory behind the link it was removed instead of created there", rep2))
     if ndis:
-        res["broken"].append(f"{pid}/corr/pair-identity: the archive file name differs from blake3(canon(A) NUL canon(B)) over the exact path bytes for {ndis} of {len(PAIR_NAMES)} root pairs")
+        res["broken"].append(f"{pid}/corr/pair-identity: the archive file name differs from blake3(canon(A) NUL canon(B)) over the exact path bytes for {ndis} of {len(PAIR_NAMES) + 2} root pairs")
     return ndis
 
 
@@ -262,6 +295,12 @@ def run(pid, tier, seed, rundir, model_run):
     corpus.append(
         # (seed C06-F) a propagated delete empties a replica through a NESTED path: the roots themselves must survive, the next run must work
         [("write", "A", "d/e/x", b"one\n"), ("bisync",), ("delete", "A", "d/e/x"), ("bisync",), ("bisync",), ("write", "B", "p", b"3"), ("bisync",)])
+    # (seed C02-G) a path that CANNOT be delivered: its name fits NAME_MAX, the staging name (+10 bytes) does not, so the copy fails and
+    # the run stops there with an error, every time. A failed run is a run that stopped: nothing may be recorded for the path, and no
+    # later run may take the undelivered version for one "both sides held".
+    LONG = "n" * 250
+    corpus.append([("write", "A", LONG, b"one\n"), ("write", "A", "p", b"3"), ("bisync",), ("bisync",), ("write", "B", "q", b"two two\n"), ("bisync",)])
+    corpus.append([("both", "p", b"one\n", b"one\n"), ("bisync",), ("write", "B", "d/" + LONG, b"two two\n"), ("write", "A", "p", b"3"), ("bisync",), ("bisync",), ("bisync",)])
     histories = [(h, "corpus") for h in corpus] + [(None, "random") for _ in range(n_hist)]
     for hi, (hops, hkind) in enumerate(histories):
         length = rng.range(2, 12)
@@ -316,7 +355,13 @@ def run(pid, tier, seed, rundir, model_run):
                         q = f"bi {hexs(HOST)} {tree_tok(da)} {tree_tok(db)} {arch_tok}"
                         arch2_tok = "none" if trusted2 is None else tree_tok(trusted2)
                         imp = f"{status} {plan_n} {conf_n if conf_n is not None else '-'} A={tree_tok(da2)} B={tree_tok(db2)} arch={arch2_tok}"
-                        if run_variant is None:
+                        undeliverable = status == "ioerror" and any(len(os.path.basename(p_).encode()) > 245 for p_ in list(da) + list(db))
+                        if undeliverable:
+                            # the model has no failing copies: these runs are judged by the oracles only (and by what the NEXT run does)
+                            count("run/stopped-at-an-undeliverable-name")
+                            if raw2 != raw:
+                                res["violations"].append(("failed-run-changed-the-record", "the run stopped with an I/O error and yet rewrote the recorded common state", {"history": list(history_txt) + ["bisync"], "rc": rc, "stderr": err[-300:]}))
+                        if run_variant is None and not undeliverable:
                             ops_f.write(q + "\n"); impl_lines.append(imp)
                             line = len(impl_lines)
                             meta_lines.append((line, hi, list(history_txt)))
@@ -326,6 +371,8 @@ def run(pid, tier, seed, rundir, model_run):
                             if len(res["samples"]) < 8 and plan_n:
                                 res["samples"].append({"history": list(history_txt), "query": q[:300], "impl": imp[:300]})
                         else:
+                            line = 0
+                        if undeliverable:
                             line = 0
                         history_txt.append(f"bisync -> rc={rc} plan={plan_n} conflicts={conf_n}")
                         # the harness's own trust prediction must agree with the banner
